@@ -131,6 +131,14 @@ def make_files(rng, ctx):
         offs |= {rng.randrange(n + 1) for _ in range(ctx.pick(24, 400))}
         f['offsets'] = sorted(offs)
         files.append(f)
+    # a version-3 dump whose events chunks declare a length that is not a whole number of records (fill bytes after the
+    # last record); whatever the tool makes of the complete file, every cut of it must stop and report a prefix of that
+    evs = gen.gen_scenario_events(rng, n_scenarios=3)
+    recs = gen.events_to_records(evs)[:12]
+    spec = wire.V3Spec(entries=[(11, 100, b'proc0', b'')], chunks=[recs[:5], recs[5:9], recs[9:]])
+    spec.chunk_slack = [bytes(16), b'\x01' * 8, bytes(40)]
+    files.append({'kind': 'v3', 'entries': spec.entries, 'records': recs[:5], 'spec': spec, 'data': spec.build(), 'model': None,
+                  'label': 'v3 chunk lengths with fill bytes', 'lenient_full': True})
     # raw-bytes files: arbitrary record content (event pipelines only make sense, traces still must be a prefix)
     f = gen.gen_v2(rng, m=ctx.pick(6, 24), n=2)
     f['label'] = 'v2 arbitrary record bytes'
@@ -254,7 +262,7 @@ def run(ctx):
             for name, (make, key) in pl.items():
                 full, exc = collect(make, key, io.BytesIO(f['data']))
                 fulls[name] = full
-                if name == 'kevents' and (exc is not None or len(full) != len(f['records'])):
+                if name == 'kevents' and not f.get('lenient_full') and (exc is not None or len(full) != len(f['records'])):
                     res.violation('c06-full-file', f'{f["label"]}: complete file yields {len(full)} events '
                                   f'({exc!r}), expected {len(f["records"])}', {'file': f['data']})
             res.count('files')
